@@ -52,9 +52,17 @@ fn call_print(args: &[Object]) -> Result<Object, Error> {
             format_str = format_str.replacen("{}", &replacement.to_string(), 1);
         }
 
+        #[cfg(feature = "verif")]
+        if crate::verif::capture_line(&format_str) {
+            return Ok(Object::null());
+        }
         print!("{format_str}");
     }
 
+    #[cfg(feature = "verif")]
+    if crate::verif::capture_line("") {
+        return Ok(Object::null());
+    }
     println!();
     Ok(Object::null())
 }
